@@ -19,6 +19,21 @@ from mdsa.cfg import CFG, walk_local
 Edge = Tuple[int, str]
 
 
+_PURE_STR_METHODS = {"split", "rsplit", "strip", "lstrip", "rstrip", "partition", "rpartition", "lower", "upper", "splitlines"}
+
+
+def _pure_seq(e: ast.AST) -> bool:
+    """a name / attribute path, possibly with string methods that build a new value from constants: evaluating it twice
+    gives the same value"""
+    if isinstance(e, (ast.Name, ast.Constant)):
+        return True
+    if isinstance(e, ast.Attribute):
+        return _pure_seq(e.value)
+    if isinstance(e, ast.Call) and isinstance(e.func, ast.Attribute) and e.func.attr in _PURE_STR_METHODS and not e.keywords:
+        return _pure_seq(e.func.value) and all(isinstance(a, ast.Constant) for a in e.args)
+    return False
+
+
 class Not:
     """spec value for decision_mismatches: any answer but these"""
 
@@ -74,6 +89,17 @@ class F:
                             # `a, b, c = seq` (seq a plain name / attribute path): a is seq[0], ...
                             for k_, x_ in enumerate(t.elts):
                                 d[x_.id] = ast.copy_location(ast.Subscript(value=copy.deepcopy(st.value), slice=ast.Constant(value=k_), ctx=ast.Load()), st.value)
+                        elif isinstance(t, ast.Tuple) and len(st.targets) == 1 and sum(isinstance(x_, ast.Starred) for x_ in t.elts) == 1 and all(isinstance(x_, ast.Name) or (isinstance(x_, ast.Starred) and isinstance(x_.value, ast.Name)) for x_ in t.elts) and _pure_seq(st.value) and not ({(x_.value if isinstance(x_, ast.Starred) else x_).id for x_ in t.elts} & {x_.id for x_ in ast.walk(st.value) if isinstance(x_, ast.Name)}):
+                            # `first, *rest = seq` / `*_, last = seq` (seq a pure expression): first is seq[0], last is seq[-1]
+                            star = next(k_ for k_, x_ in enumerate(t.elts) if isinstance(x_, ast.Starred))
+                            n_el = len(t.elts)
+                            for k_, x_ in enumerate(t.elts):
+                                if isinstance(x_, ast.Starred):
+                                    lo, hi = star, star - n_el + 1
+                                    d[x_.value.id] = ast.copy_location(ast.Subscript(value=copy.deepcopy(st.value), slice=ast.Slice(lower=ast.Constant(value=lo) if lo else None, upper=ast.UnaryOp(op=ast.USub(), operand=ast.Constant(value=-hi)) if hi else None), ctx=ast.Load()), st.value)
+                                else:
+                                    ix_ = ast.Constant(value=k_) if k_ < star else ast.UnaryOp(op=ast.USub(), operand=ast.Constant(value=n_el - k_))
+                                    d[x_.id] = ast.copy_location(ast.Subscript(value=copy.deepcopy(st.value), slice=ix_, ctx=ast.Load()), st.value)
                         else:
                             for x_ in ast.walk(t):
                                 if isinstance(x_, ast.Name) and isinstance(x_.ctx, ast.Store):
@@ -571,6 +597,30 @@ class F:
 
         dfs(g.entry, [], frozenset(), {})
         return out
+
+    def result_formula(self, limit: int = 128) -> Optional[ast.AST]:
+        """The boolean result of a loop-free predicate as ONE condition: OR over its return paths of (conditions on the path
+        AND returned expression), constants folded.  `if a: return True; return b`  gives  `a or (not a and b)`.
+        None when a path returns nothing / the function has loops."""
+        try:
+            vp = self.value_paths(limit)
+        except ValueError:
+            return None
+        terms = []
+        for lits, v, n_ in vp:
+            if isinstance(v, ast.Constant) and v.value is None:
+                return None
+            parts = [ast.parse(k, mode="eval").body if tv else ast.UnaryOp(op=ast.Not(), operand=ast.parse(k, mode="eval").body) for k, tv in lits]
+            if isinstance(v, ast.Constant) and v.value is False:
+                continue
+            if not (isinstance(v, ast.Constant) and v.value is True):
+                parts.append(M.canon_idioms(M.canon_strings(copy.deepcopy(v))))
+            if not parts:
+                return ast.Constant(value=True)
+            terms.append(parts[0] if len(parts) == 1 else ast.BoolOp(op=ast.And(), values=parts))
+        if not terms:
+            return ast.Constant(value=False)
+        return ast.fix_missing_locations(terms[0] if len(terms) == 1 else ast.BoolOp(op=ast.Or(), values=terms))
 
     def decision_mismatches(self, spec, limit: int = 512):
         """Compare the function with a decision table: `spec(d)` maps the outcomes of the atoms on a path (d: atom text ->
